@@ -50,7 +50,8 @@ Resolve(cur, first, last) ==
 \* subtracted from the current offset" (the end offset is meant: the comment of SeekEnd says
 \* "relative to the last offset"); "relative to the current offset" for a connection whose position is
 \* symbolic (Offset() reports it as (0, SeekStart) / (0, SeekEnd)) is relative to the offset the symbol
-\* stands for.
+\* stands for (the code added the numeric value of the symbol, -2 / -1, until /repo commit bc6f758, a
+\* defect this specification exposed).
 SeekTarget(cur, off, whence, first, last) ==
   CASE whence = SeekStart    -> first + off
     [] whence = SeekAbsolute -> off
@@ -96,7 +97,7 @@ OffsetPair(pos) ==
 (***************************************************************************)
 (* (ii) The abstract cluster state and its projections                     *)
 (*                                                                         *)
-(* CS = [brokers: Seq(Int), controller: Int, down: Seq(Int),               *)
+(* CS = [brokers: Seq([id, host, port]), controller: Int, down: Seq(Int),  *)
 (*       topics: Seq([name, parts: Seq([id, leader, replicas, isr, start,  *)
 (*                    end, ts, lerr, merr])]),                             *)
 (*       groups: Seq([id, coord, committed: Seq([t, p, off])])]            *)
@@ -174,15 +175,13 @@ Committed(cs, g, t, p) == IF g \in GroupIds(cs) THEN CommittedIn(GroupOf(cs, g).
 \* OffsetCommit: the committed offsets afterwards (later entries win).
 AfterCommit(committed, commits) == committed \o commits
 
-BrokerRec(id) == [id |-> id]
-
 (***************************************************************************)
 (* Anchor cases: TLC evaluates these ASSUMEs when the module is loaded     *)
 (* (sanity of the definitions themselves, independent of any code).        *)
 (***************************************************************************)
 AnchorPart == [id |-> 0, leader |-> 1, replicas |-> <<1, 2>>, isr |-> <<1>>, start |-> 1, end |-> 4,
                ts |-> <<10, 10, 20, 20>>, lerr |-> 0, merr |-> 0]
-AnchorCS == [brokers |-> <<1, 2>>, controller |-> 1, down |-> <<2>>,
+AnchorCS == [brokers |-> <<[id |-> 1, host |-> "b1", port |-> 9092], [id |-> 2, host |-> "b2", port |-> 9092]>>, controller |-> 1, down |-> <<2>>,
              topics |-> << [name |-> "ta", parts |-> <<AnchorPart, [AnchorPart EXCEPT !.id = 1, !.leader = 2]>>] >>,
              groups |-> << [id |-> "g", coord |-> 1, committed |-> << [t |-> "ta", p |-> 0, off |-> 3] >>] >>]
 
